@@ -7,65 +7,135 @@ import (
 	"strings"
 )
 
-// C08 facts: the header-name literals addHeaders/scheme/addResponseHeaders use, the literals of the
-// Forwarded / Strict-Transport-Security values, the tlsver table, how the "websocket" upgrade is recognised at
-// the three sites that must agree, and the order of request-id, addHeaders and the Host override in
-// HTTPProxy.ServeHTTP.
+// C08 facts. Everything is extracted from the NORMALISED AST (package constants inlined, literal
+// concatenations folded, switch -> if-chains) and by walking functions with their unexported same-package
+// callees inlined, so that the facts describe what the code does (which header names it reads and writes, in
+// which order it writes them, which literals it compares with, in which order ServeHTTP sets the request id,
+// calls addHeaders and overrides Host), not how it is spelled. Variables are identified by role (receiver,
+// i-th parameter, selected field name), never by their names.
+//
+// Names that ARE fixed: addHeaders, addResponseHeaders, scheme, localPort (referenced by the hook
+// /repo/proxy/verif_c08.go — renaming one of them breaks the harness build before any fact is looked at) and
+// HTTPProxy.ServeHTTP (exported API).
 func init() {
 	register("C08", func(x *X) error {
-		hdrNames := func(fd *ast.FuncDecl) []string {
-			set := map[string]bool{}
-			ast.Inspect(fd.Body, func(n ast.Node) bool {
-				switch v := n.(type) {
-				case *ast.CallExpr:
-					sel, ok := v.Fun.(*ast.SelectorExpr)
-					if !ok || len(v.Args) == 0 {
-						return true
-					}
-					recv := x.src(sel.X)
-					if !strings.HasSuffix(recv, ".Header") && !strings.HasSuffix(recv, ".Header()") {
-						return true
-					}
-					switch sel.Sel.Name {
-					case "Get", "Set", "Del", "Add", "Values":
-						if s, ok := x.strLit(v.Args[0]); ok {
-							set[s] = true
-						}
-					}
-				case *ast.IndexExpr:
-					if strings.HasSuffix(x.src(v.X), ".Header") {
-						if s, ok := x.strLit(v.Index); ok {
-							set[s] = true
-						} else {
-							x.fail("%s: header map indexed with a non-literal: %s", fd.Name.Name, x.src(v))
+		x.UseNormalizedAST()
+		const dir = "proxy"
+
+		// ---- helpers -------------------------------------------------------------------------------------
+		// isHeaderExpr: an expression denoting a header map: `<any>.Header`, `<any>.Header()`, or a local that was
+		// assigned from one (aliases collected per walk).
+		type walkCtx struct{ alias map[string]bool }
+		isHeaderExpr := func(c *walkCtx, e ast.Expr) bool {
+			switch v := e.(type) {
+			case *ast.SelectorExpr:
+				return v.Sel.Name == "Header"
+			case *ast.CallExpr:
+				if s, ok := v.Fun.(*ast.SelectorExpr); ok && len(v.Args) == 0 {
+					return s.Sel.Name == "Header"
+				}
+			case *ast.Ident:
+				return c.alias[v.Name]
+			}
+			return false
+		}
+		// key renders a header-name argument by meaning: literal value, or the selected field name.
+		key := func(e ast.Expr) string {
+			if s, ok := x.strLit(e); ok {
+				return s
+			}
+			if s, ok := e.(*ast.SelectorExpr); ok {
+				return "field:" + s.Sel.Name
+			}
+			return "?"
+		}
+		// walk visits fd with callees inlined and keeps the header aliases up to date.
+		walk := func(fd *ast.FuncDecl, visit func(c *walkCtx, n ast.Node)) {
+			c := &walkCtx{alias: map[string]bool{}}
+			x.WalkInlined(dir, fd, func(n ast.Node) bool {
+				if as, ok := n.(*ast.AssignStmt); ok && len(as.Lhs) == len(as.Rhs) {
+					for i, l := range as.Lhs {
+						if id, ok := l.(*ast.Ident); ok && isHeaderExpr(c, as.Rhs[i]) {
+							c.alias[id.Name] = true
 						}
 					}
 				}
+				visit(c, n)
 				return true
 			})
-			var out []string
-			for s := range set {
-				out = append(out, s)
+		}
+		// names: every literal header name the function (with callees) reads or writes; writes: ordered list of
+		// header mutations, consecutive duplicates collapsed.
+		headerUse := func(fd *ast.FuncDecl) (names []string, writes []string) {
+			set := map[string]bool{}
+			push := func(ev string) {
+				if len(writes) == 0 || writes[len(writes)-1] != ev {
+					writes = append(writes, ev)
+				}
 			}
-			sort.Strings(out)
-			return out
+			note := func(e ast.Expr) {
+				if s, ok := x.strLit(e); ok {
+					set[s] = true
+				}
+			}
+			walk(fd, func(c *walkCtx, n ast.Node) {
+				switch v := n.(type) {
+				case *ast.CallExpr:
+					if id, ok := v.Fun.(*ast.Ident); ok && id.Name == "delete" && len(v.Args) == 2 && isHeaderExpr(c, v.Args[0]) {
+						note(v.Args[1])
+						push("del:" + key(v.Args[1]))
+						return
+					}
+					sel, ok := v.Fun.(*ast.SelectorExpr)
+					if !ok || len(v.Args) == 0 || !isHeaderExpr(c, sel.X) {
+						return
+					}
+					switch sel.Sel.Name {
+					case "Get", "Values":
+						note(v.Args[0])
+					case "Set":
+						note(v.Args[0])
+						push("set:" + key(v.Args[0]))
+					case "Add":
+						note(v.Args[0])
+						push("add:" + key(v.Args[0]))
+					case "Del":
+						note(v.Args[0])
+						push("del:" + key(v.Args[0]))
+					}
+				case *ast.IndexExpr:
+					if isHeaderExpr(c, v.X) {
+						note(v.Index)
+					}
+				case *ast.AssignStmt:
+					for _, l := range v.Lhs {
+						if ix, ok := l.(*ast.IndexExpr); ok && isHeaderExpr(c, ix.X) {
+							push("assign:" + key(ix.Index))
+						}
+					}
+				}
+			})
+			for s := range set {
+				names = append(names, s)
+			}
+			sort.Strings(names)
+			return
 		}
 		literals := func(fd *ast.FuncDecl, keep func(string) bool) []string {
 			var out []string
-			ast.Inspect(fd.Body, func(n ast.Node) bool {
+			walk(fd, func(c *walkCtx, n ast.Node) {
 				if bl, ok := n.(*ast.BasicLit); ok && bl.Kind == token.STRING {
 					if s, ok := x.strLit(bl); ok && keep(s) {
 						out = append(out, s)
 					}
 				}
-				return true
 			})
 			return out
 		}
-		// how a function recognises the websocket upgrade: every comparison against a literal that is
-		// "websocket" in some casing
+		// how a function (with callees) recognises the websocket upgrade: the set of comparison kinds against a
+		// literal that is "websocket" in some casing
 		wsCompare := func(fd *ast.FuncDecl) []string {
-			var out []string
+			set := map[string]bool{}
 			isWS := func(e ast.Expr) (string, bool) {
 				s, ok := x.strLit(e)
 				return s, ok && strings.EqualFold(s, "websocket")
@@ -74,18 +144,18 @@ func init() {
 				c, ok := e.(*ast.CallExpr)
 				return ok && x.src(c.Fun) == "strings.ToLower"
 			}
-			ast.Inspect(fd.Body, func(n ast.Node) bool {
+			walk(fd, func(c *walkCtx, n ast.Node) {
 				switch v := n.(type) {
 				case *ast.BinaryExpr:
 					if v.Op != token.EQL && v.Op != token.NEQ {
-						return true
+						return
 					}
 					for _, p := range [][2]ast.Expr{{v.X, v.Y}, {v.Y, v.X}} {
 						if s, ok := isWS(p[1]); ok {
 							if isToLower(p[0]) {
-								out = append(out, "fold:"+s)
+								set["fold:"+s] = true
 							} else {
-								out = append(out, "exact:"+s)
+								set["exact:"+s] = true
 							}
 						}
 					}
@@ -93,46 +163,90 @@ func init() {
 					if x.src(v.Fun) == "strings.EqualFold" && len(v.Args) == 2 {
 						for _, a := range v.Args {
 							if s, ok := isWS(a); ok {
-								out = append(out, "fold:"+strings.ToLower(s))
+								set["fold:"+strings.ToLower(s)] = true
 							}
 						}
 					}
 				}
-				return true
 			})
+			var out []string
+			for s := range set {
+				out = append(out, s)
+			}
+			sort.Strings(out)
 			return out
 		}
 
-		add := x.funcDecl("proxy", "", "addHeaders")
-		sch := x.funcDecl("proxy", "", "scheme")
-		rsp := x.funcDecl("proxy", "", "addResponseHeaders")
-		srv := x.funcDecl("proxy", "HTTPProxy", "ServeHTTP")
+		add := x.funcDecl(dir, "", "addHeaders")
+		sch := x.funcDecl(dir, "", "scheme")
+		rsp := x.funcDecl(dir, "", "addResponseHeaders")
+		srv := x.funcDecl(dir, "HTTPProxy", "ServeHTTP")
 		if add == nil || sch == nil || rsp == nil || srv == nil {
 			return nil
 		}
-		x.defStrList("addHeadersNames", hdrNames(add))
-		x.defStrList("schemeNames", hdrNames(sch))
-		x.defStrList("responseNames", hdrNames(rsp))
-		x.defStrList("forwardedPieces", literals(add, func(s string) bool {
-			return strings.HasPrefix(s, "; ") || strings.HasSuffix(s, "=")
-		}))
-		x.defStrList("stsPieces", literals(rsp, func(s string) bool { return s != "Strict-Transport-Security" }))
-		x.defStrList("schemeLiterals", literals(sch, func(s string) bool { return s != "" && !strings.Contains(s, "-") && s != "Forwarded" && s != "Upgrade" }))
 
-		// literals the configured client-IP header name is compared with
-		var excl []string
-		ast.Inspect(add.Body, func(n ast.Node) bool {
-			if b, ok := n.(*ast.BinaryExpr); ok && b.Op == token.NEQ && x.src(b.X) == "cfg.ClientIPHeader" {
-				if s, ok := x.strLit(b.Y); ok && s != "" {
-					excl = append(excl, s)
+		// ---- header names and the order of header writes ---------------------------------------------------
+		an, aw := headerUse(add)
+		sn, sw := headerUse(sch)
+		rn, rw := headerUse(rsp)
+		x.defStrList("addHeadersNames", an)
+		x.defStrList("addHeadersWrites", aw)
+		x.defStrList("schemeNames", sn)
+		x.defStrList("schemeWrites", sw)
+		x.defStrList("responseNames", rn)
+		x.defStrList("responseWrites", rw)
+
+		// ---- literals of the Forwarded / HSTS values and of scheme ----------------------------------------
+		x.defStrList("forwardedPieces", literals(add, func(s string) bool {
+			return strings.HasPrefix(s, "; ") || s == "for="
+		}))
+		isName := func(s string) bool {
+			for _, n := range rn {
+				if s == n {
+					return true
 				}
 			}
-			return true
+			return false
+		}
+		x.defStrList("stsPieces", literals(rsp, func(s string) bool { return !isName(s) }))
+		schemeNameSet := map[string]bool{}
+		for _, n := range sn {
+			schemeNameSet[n] = true
+		}
+		x.defStrList("schemeLiterals", literals(sch, func(s string) bool { return s != "" && !schemeNameSet[s] }))
+
+		// ---- literals the configured client-IP header name is compared with (either operand order) ---------
+		var excl []string
+		walk(add, func(c *walkCtx, n ast.Node) {
+			b, ok := n.(*ast.BinaryExpr)
+			if !ok || b.Op != token.NEQ {
+				return
+			}
+			for _, p := range [][2]ast.Expr{{b.X, b.Y}, {b.Y, b.X}} {
+				if s, ok := p[0].(*ast.SelectorExpr); ok && s.Sel.Name == "ClientIPHeader" {
+					if lit, ok := x.strLit(p[1]); ok && lit != "" {
+						excl = append(excl, lit)
+					}
+				}
+			}
 		})
+		sort.Strings(excl)
 		x.defStrList("clientIPExcluded", excl)
 
-		// tlsver table
-		if e := x.valueSpec("proxy", "tlsver"); e != nil {
+		// ---- the TLS version table: the package-level map indexed with `<…>.TLS.Version` ------------------
+		tableName := ""
+		walk(add, func(c *walkCtx, n ast.Node) {
+			if ix, ok := n.(*ast.IndexExpr); ok {
+				if s, ok := ix.Index.(*ast.SelectorExpr); ok && s.Sel.Name == "Version" {
+					if id, ok := ix.X.(*ast.Ident); ok {
+						tableName = id.Name
+					}
+				}
+			}
+		})
+		if tableName == "" {
+			x.fail("addHeaders: no table indexed with the TLS version found")
+		} else if e := x.valueSpec(dir, tableName); e != nil {
 			if cl, ok := e.(*ast.CompositeLit); ok {
 				var ks, vs []string
 				for _, el := range cl.Elts {
@@ -145,112 +259,167 @@ func init() {
 				x.defStrList("tlsverKeys", ks)
 				x.defStrList("tlsverValues", vs)
 			} else {
-				x.fail("proxy.tlsver is not a composite literal")
+				x.fail("proxy.%s is not a composite literal", tableName)
 			}
 		}
 
-		// protectManagedHeaders (D12d): the fixed list, the configured names it adds, how a Connection token is
-		// turned into a header name, and that addHeaders calls it last
-		if prot := x.funcDecl("proxy", "", "protectManagedHeaders"); prot != nil {
-			if e := x.valueSpec("proxy", "managedHeaders"); e != nil {
-				if cl, ok := e.(*ast.CompositeLit); ok {
-					var vs []string
-					for _, el := range cl.Elts {
-						v, ok := x.strLit(el)
-						if !ok {
-							x.fail("managedHeaders: non-literal element %s", x.src(el))
-						}
-						vs = append(vs, v)
-					}
-					x.defStrList("managedHeaders", vs)
-				} else {
-					x.fail("proxy.managedHeaders is not a composite literal")
-				}
+		// ---- protection of the managed names in the Connection header (D12d) ------------------------------
+		// the fixed list: the package-level []string ranged over; the configured names: the fields selected in the
+		// []string literal ranged over; the token key: the callee chain applied to a token before the lookup
+		var managedList, cfgFields, tokKeys []string
+		var chain func(e ast.Expr) string
+		chain = func(e ast.Expr) string {
+			if c, ok := e.(*ast.CallExpr); ok && len(c.Args) == 1 {
+				return x.src(c.Fun) + "(" + chain(c.Args[0]) + ")"
 			}
-			var cfgNames, tokKeys []string
-			ast.Inspect(prot.Body, func(n ast.Node) bool {
-				switch v := n.(type) {
-				case *ast.CompositeLit:
-					for _, el := range v.Elts {
-						if strings.HasPrefix(x.src(el), "cfg.") {
-							cfgNames = append(cfgNames, x.src(el))
-						}
-					}
-				case *ast.UnaryExpr:
-					if v.Op == token.NOT {
-						if ix, ok := v.X.(*ast.IndexExpr); ok && x.src(ix.X) == "managed" {
-							tokKeys = append(tokKeys, x.src(ix.Index))
-						}
-					}
-				}
-				return true
-			})
-			x.defStrList("protectConfigNames", cfgNames)
-			x.defStrList("protectTokenKey", tokKeys)
-			x.defStrList("protectHeaderNames", hdrNames(prot))
-			last := false
-			if n := len(add.Body.List); n >= 2 {
-				if es, ok := add.Body.List[n-2].(*ast.ExprStmt); ok && x.src(es.X) == "protectManagedHeaders(r, cfg)" {
-					_, isRet := add.Body.List[n-1].(*ast.ReturnStmt)
-					last = isRet
-				}
-			}
-			x.defBool("protectIsLastStatement", last)
+			return "_"
 		}
+		walk(add, func(c *walkCtx, n ast.Node) {
+			switch v := n.(type) {
+			case *ast.RangeStmt:
+				switch r := v.X.(type) {
+				case *ast.Ident:
+					if e := x.pkgVarInit(dir, r.Name); e != nil {
+						if cl, ok := e.(*ast.CompositeLit); ok {
+							for _, el := range cl.Elts {
+								if s, ok := x.strLit(el); ok {
+									managedList = append(managedList, s)
+								} else {
+									x.fail("managed header list: non-constant element %s", x.src(el))
+								}
+							}
+						}
+					}
+				case *ast.CompositeLit:
+					for _, el := range r.Elts {
+						if s, ok := el.(*ast.SelectorExpr); ok {
+							cfgFields = append(cfgFields, s.Sel.Name)
+						}
+					}
+				}
+			case *ast.UnaryExpr:
+				if v.Op == token.NOT {
+					if ix, ok := v.X.(*ast.IndexExpr); ok {
+						if k := chain(ix.Index); k != "_" {
+							tokKeys = append(tokKeys, k)
+						}
+					}
+				}
+			}
+		})
+		sort.Strings(managedList)
+		x.defStrList("managedHeaders", managedList)
+		x.defStrList("protectConfigFields", cfgFields)
+		x.defStrList("protectTokenKey", tokKeys)
 
 		x.defStrList("wsCompareAddHeaders", wsCompare(add))
 		x.defStrList("wsCompareScheme", wsCompare(sch))
 		x.defStrList("wsCompareServeHTTP", wsCompare(srv))
 
-		// order inside ServeHTTP (source positions; the body is straight-line code with early returns)
-		var addPos []token.Pos
-		for _, c := range x.calls(srv.Body, "addHeaders") {
-			addPos = append(addPos, c.Pos())
+		// ---- order inside ServeHTTP (event order with callees inlined) -------------------------------------
+		recv, params, _ := x.LocalNames(srv)
+		var events []string // "reqid" | "addHeaders" | "host"
+		var addArgs []string
+		role := func(e ast.Expr) string {
+			switch v := e.(type) {
+			case *ast.Ident:
+				for i, p := range params {
+					if v.Name == p {
+						return "param" + string(rune('0'+i))
+					}
+				}
+				if v.Name == recv {
+					return "recv"
+				}
+				return "local"
+			case *ast.SelectorExpr:
+				if id, ok := v.X.(*ast.Ident); ok {
+					r := "local"
+					if id.Name == recv {
+						r = "recv"
+					}
+					for i, p := range params {
+						if id.Name == p {
+							r = "param" + string(rune('0'+i))
+						}
+					}
+					return r + "." + v.Sel.Name
+				}
+			}
+			return "?"
 		}
-		var hostAssign, reqID []token.Pos
-		ast.Inspect(srv.Body, func(n ast.Node) bool {
+		walk(srv, func(c *walkCtx, n ast.Node) {
 			switch v := n.(type) {
 			case *ast.AssignStmt:
 				for _, l := range v.Lhs {
-					if x.src(l) == "r.Host" {
-						hostAssign = append(hostAssign, v.Pos())
+					// `<variable>.Host = …`: the request's Host (in ServeHTTP or in a helper it calls, whatever the
+					// variable is called; `x.URL.Host = …` has a selector, not a variable, on the left)
+					if s, ok := l.(*ast.SelectorExpr); ok && s.Sel.Name == "Host" {
+						if _, ok := s.X.(*ast.Ident); ok {
+							events = append(events, "host")
+						}
 					}
 				}
 			case *ast.CallExpr:
-				if x.src(v.Fun) == "r.Header.Set" && len(v.Args) == 2 && x.src(v.Args[0]) == "p.Config.RequestID" {
-					reqID = append(reqID, v.Pos())
+				if id, ok := v.Fun.(*ast.Ident); ok && id.Name == "addHeaders" {
+					events = append(events, "addHeaders")
+					if addArgs == nil {
+						for _, a := range v.Args {
+							addArgs = append(addArgs, role(a))
+						}
+					}
+					return
+				}
+				if s, ok := v.Fun.(*ast.SelectorExpr); ok && s.Sel.Name == "Set" && len(v.Args) == 2 && isHeaderExpr(c, s.X) {
+					if a, ok := v.Args[0].(*ast.SelectorExpr); ok && a.Sel.Name == "RequestID" {
+						events = append(events, "reqid")
+					}
 				}
 			}
-			return true
 		})
-		x.defNat("addHeadersCalls", uint64(len(addPos)))
-		x.defNat("hostAssignments", uint64(len(hostAssign)))
-		x.defNat("requestIDSets", uint64(len(reqID)))
-		before := func(ps []token.Pos) uint64 {
+		count := func(ev string, beforeAdd bool) uint64 {
 			n := uint64(0)
-			for _, p := range ps {
-				for _, a := range addPos {
-					if p < a {
-						n++
-						break
-					}
+			seenAdd := false
+			for _, e := range events {
+				if e == "addHeaders" {
+					seenAdd = true
+				}
+				if e == ev && (!beforeAdd || !seenAdd) {
+					n++
 				}
 			}
 			return n
 		}
-		x.defNat("hostAssignmentsBeforeAddHeaders", before(hostAssign))
-		x.defNat("requestIDSetsBeforeAddHeaders", before(reqID))
-		// addHeaders must be handed the request itself and the route's strip path
-		if len(addPos) == 1 {
-			c := x.calls(srv.Body, "addHeaders")[0]
-			var args []string
-			for _, a := range c.Args {
-				args = append(args, x.src(a))
-			}
-			x.defStrList("addHeadersArgs", args)
-		} else {
-			x.defStrList("addHeadersArgs", nil)
-		}
+		x.defNat("addHeadersCalls", count("addHeaders", false))
+		x.defNat("hostAssignments", count("host", false))
+		x.defNat("requestIDSets", count("reqid", false))
+		x.defNat("hostAssignmentsBeforeAddHeaders", count("host", true))
+		x.defNat("requestIDSetsBeforeAddHeaders", count("reqid", true))
+		x.defStrList("addHeadersArgs", addArgs)
 		return nil
 	})
+}
+
+// pkgVarInit is valueSpec without recording an error when the name is not a package-level variable.
+func (x *X) pkgVarInit(dir, name string) ast.Expr {
+	for _, f := range x.files(dir) {
+		for _, d := range f.Decls {
+			gd, ok := d.(*ast.GenDecl)
+			if !ok {
+				continue
+			}
+			for _, s := range gd.Specs {
+				vs, ok := s.(*ast.ValueSpec)
+				if !ok {
+					continue
+				}
+				for i, n := range vs.Names {
+					if n.Name == name && i < len(vs.Values) {
+						return vs.Values[i]
+					}
+				}
+			}
+		}
+	}
+	return nil
 }
